@@ -182,7 +182,10 @@ class Run:
             shutil.move(trace_path, os.path.join(d, tname))
         ov = dict(overrides or {})
         ov.update(TraceFile='"%s"' % tname, VFile='"%s"' % vname)
-        rec = self.tlc(module, cfg, overrides=ov, workers=1, timeout=timeout, count=False)
+        # the whole trace is held in TLC's heap as one TLA+ value (roughly 5 bytes of heap per byte of ndjson)
+        size = os.path.getsize(os.path.join(d, tname))
+        xmx = "6g" if size < 300e6 else ("16g" if size < 1.2e9 else "28g")
+        rec = self.tlc(module, cfg, overrides=ov, workers=1, timeout=max(timeout, 7200 if size > 300e6 else 0), count=False, xmx=xmx)
         return self.read_tlc_json_lines(os.path.join(d, vname))
 
     # ---------------- verdict ----------------
